@@ -241,3 +241,52 @@ Proof.
   intros bare qid qhist. destruct (lookup_forms ds u) as [A B].
   unfold rec_pipeline, pred_pipeline, qid, qhist, bare. rewrite A, B. repeat split; reflexivity.
 Qed.
+
+(* ---- one scorer output, two consumers: the ranker and the rating merger read the same value, and the
+   result for each requested node does not depend on which other nodes the same run evaluated ---- *)
+Inductive node := NRecommender | NPredictor.
+Inductive node_value := VRec (r : result (scored * bool)) | VPred (p : ilist).
+Definition eval_node (sc : scorer) (fb : option scorer) ds i supplied config_n run_n (nd : node) : node_value :=
+  match nd with
+  | NRecommender => VRec (rec_pipeline sc ds i supplied config_n run_n)
+  | NPredictor => VPred (pred_pipeline sc fb ds i supplied)
+  end.
+(* a run that is asked for several nodes, in the order given (memoised: a node already evaluated is reused) *)
+Fixpoint run_request (sc : scorer) (fb : option scorer) ds i supplied config_n run_n
+    (req : list node) (memo : list (node * node_value)) : list (node * node_value) :=
+  match req with
+  | [] => memo
+  | nd :: rest =>
+      let isn := fun p : node * node_value =>
+        match fst p, nd with NRecommender, NRecommender | NPredictor, NPredictor => true | _, _ => false end in
+      if existsb isn memo then run_request sc fb ds i supplied config_n run_n rest memo
+      else run_request sc fb ds i supplied config_n run_n rest
+             (memo ++ [(nd, eval_node sc fb ds i supplied config_n run_n nd)])
+  end.
+
+Lemma run_request_sound sc fb ds i supplied config_n run_n req memo :
+  (forall nd v, In (nd, v) memo -> v = eval_node sc fb ds i supplied config_n run_n nd) ->
+  forall nd v, In (nd, v) (run_request sc fb ds i supplied config_n run_n req memo) ->
+    v = eval_node sc fb ds i supplied config_n run_n nd.
+Proof.
+  revert memo. induction req as [|r req IH]; intros memo Hm nd v H; simpl in H; [auto|].
+  match type of H with context [if ?b then _ else _] => destruct b end.
+  - eapply IH; eauto.
+  - eapply IH; [|exact H]. intros nd' v' Hi. apply in_app_or in Hi. destruct Hi as [Hi|[Hi|[]]]; [auto|].
+    inversion Hi; subst. reflexivity.
+Qed.
+
+Lemma shared_scorer_output_l (sc f : scorer) ds i supplied config_n run_n :
+  let q := lookup_history ds i in
+  let cand := candidates ds q supplied in
+  let scores := score_items sc q cand in
+  rec_pipeline sc ds i supplied config_n run_n = topn_ranker (Some scores) run_n config_n /\
+  pred_pipeline sc (Some f) ds i supplied = fallback_scorer (of_rows scores) (of_rows (score_items f q cand)) /\
+  pred_pipeline sc None ds i supplied = of_rows scores /\
+  (* whatever else one run is asked for, and in whatever order, each node's result is the stand-alone one *)
+  forall fb req nd v, In (nd, v) (run_request sc fb ds i supplied config_n run_n req []) ->
+    v = eval_node sc fb ds i supplied config_n run_n nd.
+Proof.
+  intros q cand scores. repeat split.
+  intros fb req nd v H. eapply run_request_sound; [|exact H]. intros ? ? [].
+Qed.
